@@ -379,3 +379,24 @@ Lemma qred_keeps_between : rnd_keeps_between Qred.
 Proof.
   intros a b q H. unfold btw in *. rewrite (Qred_correct q). exact H.
 Qed.
+
+Lemma call_sites_lemma : forall s rnd f, rnd_keeps_between rnd ->
+  forall x0 x1 y0 y1 guess,
+  (exists r, iq_interpolation rnd f (site_cfg s) c_maxiter x0 x1 (Some y0) (Some y1) guess = Ok r) /\
+  forall r n, y0 == f x0 -> y1 == f x1 -> y0 * y1 <= 0 ->
+    iq_interpolation rnd f (site_cfg s) c_maxiter x0 x1 (Some y0) (Some y1) guess = Ok (r, Tol, n) ->
+    Qabs (f r) < c_V_tol \/
+    exists a b, f a < 0 /\ 0 < f b /\ (r = a \/ r = b) /\
+                Qabs (b - a) < (match s with SiteTV | SiteTH | SiteTS => c_P_tol | _ => c_T_tol end) /\ btw x0 x1 a /\ btw x0 x1 b.
+Proof.
+  intros s rnd f R x0 x1 y0 y1 guess. split.
+  - apply iq_total; [exact R| | |]; destruct s; reflexivity.
+  - intros r n E0 E1 SG H.
+    assert (SG' : f x0 * f x1 <= 0) by (rewrite <- E0, <- E1; exact SG).
+    destruct (iq_resolution_lemma rnd f R (site_cfg s) c_maxiter x0 x1 (Some y0) (Some y1) guess r n) as [A|B]; try assumption.
+    + destruct s; reflexivity.
+    + intros v Ev; inversion Ev; subst; assumption.
+    + intros v Ev; inversion Ev; subst; assumption.
+    + left. destruct s; exact A.
+    + right. destruct s; exact B.
+Qed.
